@@ -20,7 +20,7 @@ func MapToObject(val *types.Item) (Object, error) {
 	case val.N != nil:
 		n, err := strconv.ParseFloat(types.StringValue(val.N), 64)
 
-		return &Number{Value: n}, err
+		return &Number{Value: n, text: types.StringValue(val.N)}, err
 	case val.S != nil:
 		return &String{Value: types.StringValue(val.S)}, nil
 	case val.NULL != nil && *val.NULL:
